@@ -27,7 +27,7 @@ prop(
     "(replace/insert/delete/other letter/other octave) of valid names up to length 8. Oracle: an independent "
     "note grammar (letter A-G any case, optional # except after E/B, octave -2..8, value <= 127). "
     "Non-trivial = the string has the outer shape letter #? -? digit (the only strings that can be mis-accepted) "
-    "or is a number round trip; distinct by the string itself. 'X-0' spellings are not asserted. History part: "
+    "or is a number round trip; distinct by the string itself. 'X-0' is not a note name. History part: "
     "rapid-generated sequences of arbitrary 3-byte events (data bytes 0..255) are printed with Event.String in a fresh "
     "child process each; events of the note-carrying types with a note byte < 128 must print the reference name whatever "
     "was formatted before (non-trivial = a valid note printed after a byte >= 128 with the same low 7 bits).",
